@@ -18,8 +18,9 @@ def play(ops, data, scale, extra_updates, prop_fee):
     for d in range(1, len(idx)):
         s.update(idx[d])
         for k, op in enumerate(ops[d]):
-            if op[0] == "flow": s.adjust(op[1] * scale)
-            elif op[0] == "nonflow": s.adjust(op[1] * scale, flow=False)
+            # (flags as they come out of a numpy comparison or a boolean column now and then: numpy.bool_, not the singletons)
+            if op[0] == "flow": s.adjust(op[1] * scale) if (d + k) % 2 else s.adjust(op[1] * scale, flow=np.bool_(True), update=np.bool_(True))
+            elif op[0] == "nonflow": s.adjust(op[1] * scale, flow=False) if (d + k) % 2 else s.adjust(op[1] * scale, flow=np.bool_(False))
             elif op[0] == "trade": s.allocate(op[2] * scale, op[1])
             elif op[0] == "update": s.update(idx[d])
             if extra_updates and (k + d) % 2 == 0: s.update(idx[d])
@@ -46,6 +47,9 @@ for it in range(N):
     distinct.add((n, prop_fee, sum(len(v) for v in ops.values())))
     p, v, f = s.prices, s.values, s.flows
     if abs(float(p.iloc[0]) - 100.0) > 1e-9: bad("index-starts-at-100", got=float(p.iloc[0]))
+    for d in range(1, n):
+        booked = sum(op[1] for op in ops[d] if op[0] == "flow")            # what the history itself injected or withdrew as a flow on the date
+        if abs(float(f.iloc[d]) - booked) > 1e-9 * max(1.0, abs(booked)): bad("a-flow-is-recorded-on-its-own-date", date=str(idx[d].date()), recorded=float(f.iloc[d]), scheduled=float(booked), operations=repr(ops[d])[:300]); break
     for d in range(1, n):
         base = float(v.iloc[d - 1]) + float(f.iloc[d])
         if abs(base) < 1e-9: continue
